@@ -297,7 +297,17 @@ func runC07(c *core.Ctx, o Options) {
 		}
 	}
 	c.Explanation += " G4 (= C16.J1): on every path of an administrative handler on which Unmarshal failed there is exactly one Reject built from the raw bytes and nothing else — a damaged Logon that is rejected and then processed all the same would start the session without a valid Logon."
-	c.RuleMin = map[string]int{"G1": 14, "G2": 8, "G3": 2, "census": 12, "G4": 5}
+	// G5 (premises): "refused" presupposes that a damaged or non-conforming message is seen as such — the integrity rules of C03,
+	// the anchored first-occurrence lookup the dispatcher and the rejects use, and exact value parsers
+	c.RulePrefix = "G5"
+	integrityRules(c)
+	if vbt := c.Func("fix", "ValueByTag"); vbt != nil {
+		needleCensus(c, "G5", []*ssa.Function{vbt})
+	}
+	checkCodecs(c, "G5", map[string]bool{"frombytes": true})
+	c.RulePrefix = ""
+	c.Explanation += " G5 premises: the integrity rules of C03, the anchored first-occurrence needles of ValueByTag and the exact value parsers of the codec table."
+	c.RuleMin = map[string]int{"G1": 14, "G2": 8, "G3": 2, "census": 12, "G4": 5, "G5": 20}
 	c.MinObl = 20
 }
 
